@@ -262,6 +262,13 @@ type object struct {
 	count int
 }
 
+func (o *object) bump() {
+	o.ver++
+	if active != nil {
+		active.changes++
+	}
+}
+
 type item struct {
 	v  any
 	vc VC
@@ -291,8 +298,9 @@ type Sched struct {
 	status   string
 	detail   string
 	maxEn    int
-	spurious int // consecutive spurious wake-ups without progress
-	progress bool
+	spurious   int    // consecutive spurious wake-ups without progress
+	spuriousAt uint64 // value of changes when the current run of spurious wake-ups started
+	changes    uint64 // counts state changes of modelled objects, thread starts/ends and events
 	Trace    func(string) // optional step tracer
 }
 
@@ -383,6 +391,7 @@ func (s *Sched) threadMain(t *thread, body func()) {
 	}
 	body()
 	// thread ends: hand over
+	s.changes++
 	t.done = true
 	t.pending = nil
 	s.dispatch(t)
@@ -434,13 +443,20 @@ func (s *Sched) dispatch(self *thread) {
 				s.finished <- struct{}{}
 				return // self is done (only a finished thread can see alive == 0)
 			}
-			if len(sleepers) > 0 && s.spurious < 3*len(sleepers) {
+			if len(sleepers) > 0 {
 				// nothing can change the watched objects any more: wake a sleeper spuriously;
-				// if that never leads to progress the execution is a livelock.
-				s.spurious++
-				sl := sleepers[(s.spurious-1)%len(sleepers)]
-				sl.force = true
-				continue
+				// if three rounds of that change no modelled object, start no thread and emit no
+				// event, the execution is a livelock.
+				if s.changes != s.spuriousAt {
+					s.spurious = 0
+					s.spuriousAt = s.changes
+				}
+				if s.spurious < 3*len(sleepers) {
+					s.spurious++
+					sl := sleepers[(s.spurious-1)%len(sleepers)]
+					sl.force = true
+					continue
+				}
 			}
 			var desc []string
 			for _, t := range s.threads {
@@ -489,11 +505,6 @@ func (s *Sched) dispatch(self *thread) {
 		}
 		o := chosen.pending
 		chosen.pending = nil
-		if !o.sleeper || !chosen.force {
-			if !o.sleeper {
-				s.spurious = 0
-			}
-		}
 		chosen.force = false
 		s.cur = chosen
 		chosen.tick()
@@ -576,6 +587,7 @@ func (s *Sched) spawn(name string, rank int, f func()) {
 	t.vc = parent.vc.clone()
 	parent.mutated = true
 	t.pending = &op{desc: "start"}
+	s.changes++
 	s.events = append(s.events, Event{Step: s.steps, Thread: parent.id, Name: "spawn", N: t.id, VC: parent.vc.clone()})
 	go s.threadMain(t, f)
 }
@@ -616,6 +628,7 @@ func Emit(name, arg string, n int) {
 		return
 	}
 	t := s.cur
+	s.changes++
 	s.events = append(s.events, Event{Step: s.steps, Thread: t.id, Name: name, Arg: arg, N: n, VC: t.vc.clone()})
 }
 
@@ -714,7 +727,7 @@ func (s *Sched) doRecv(t *thread, o *object) (v any, ok bool) {
 			of.taken = true
 			of.rvc = t.vc.clone()
 		}
-		o.ver++
+		o.bump()
 		t.mutated = true
 		return it.v, true
 	case len(o.sendq) > 0:
@@ -723,7 +736,7 @@ func (s *Sched) doRecv(t *thread, o *object) (v any, ok bool) {
 		t.vc.join(of.vc)
 		of.taken = true
 		of.rvc = t.vc.clone() // unbuffered: the receive happens before the send completes
-		o.ver++
+		o.bump()
 		t.mutated = true
 		return of.v, true
 	default: // closed
@@ -759,7 +772,7 @@ func Send[T any](ch chan<- T, v T) {
 				wasClosed = true
 				return
 			}
-			o.ver++
+			o.bump()
 			if o.cap > 0 {
 				// k-th receive happens before the (k+cap)-th send completes
 				if k := o.sends - o.cap; k >= 0 && k < len(o.recvVCs) {
@@ -842,7 +855,7 @@ func Close[T any](ch chan<- T) {
 			}
 			o.closed = true
 			o.closeVC = t.vc.clone()
-			o.ver++
+			o.bump()
 			// mirror on the real channel so that uninstrumented observers (context propagation) see it
 			func() {
 				defer func() { _ = recover() }()
@@ -1041,7 +1054,7 @@ func MutexLock(key uintptr) {
 		enabled: func() bool { return !o.locked && o.readers == 0 },
 		exec: func() {
 			o.locked = true
-			o.ver++
+			o.bump()
 			t.mutated = true
 			t.vc.join(o.relVC)
 		},
@@ -1059,7 +1072,7 @@ func MutexTryLock(key uintptr) bool {
 		exec: func() {
 			if !o.locked && o.readers == 0 {
 				o.locked = true
-				o.ver++
+				o.bump()
 				t.mutated = true
 				t.vc.join(o.relVC)
 				got = true
@@ -1083,7 +1096,7 @@ func MutexUnlock(key uintptr) {
 				panic("sync: unlock of unlocked mutex")
 			}
 			o.locked = false
-			o.ver++
+			o.bump()
 			t.mutated = true
 			o.relVC.join(t.vc)
 		},
@@ -1100,7 +1113,7 @@ func MutexRLock(key uintptr) {
 		enabled: func() bool { return !o.locked },
 		exec: func() {
 			o.readers++
-			o.ver++
+			o.bump()
 			t.mutated = true
 			t.vc.join(o.relVC)
 		},
@@ -1119,7 +1132,7 @@ func MutexRUnlock(key uintptr) {
 				panic("sync: RUnlock of unlocked RWMutex")
 			}
 			o.readers--
-			o.ver++
+			o.bump()
 			t.mutated = true
 			o.relVC.join(t.vc)
 		},
@@ -1138,7 +1151,7 @@ func WGAdd(key uintptr, n int) {
 			if o.count < 0 {
 				panic("sync: negative WaitGroup counter")
 			}
-			o.ver++
+			o.bump()
 			t.mutated = true
 			o.relVC.join(t.vc)
 		},
